@@ -197,7 +197,7 @@ func runOne(family string, j job, seed int64) result {
 		if s.ID == "" {
 			s.ID = fmt.Sprintf("K%06d", j.idx)
 		}
-		rn := &concfam.Runner{Sc: s, Rec: rec.New(), T: j.idx, Seed: seed}
+		rn := &concfam.Runner{Sc: s, Rec: rec.New(), T: j.idx, Seed: seed, TLSDir: session.TLSDir}
 		rn.Run()
 		return result{idx: j.idx, lines: rn.Rec.Lines(), infra: rn.Infra}
 	case "life":
